@@ -24,6 +24,7 @@ struct BoxOpts {
   bool all_strides = false;    // {N, N+1} or {N, N+1, N+3, 2N+5}
   std::vector<CpuCfg> cf = {CFG_NATIVE, CFG_GENERIC};
   std::vector<uint64_t> ks = {1, 10, 62};
+  bool wide = false;           // the wide layer: its own VMP shape list, no long-source extras
   bool inplace = false;        // also the same-pointer calls: res==a, res==b, res==a==b, a==b (element-wise ops), res==a (normalisation), res==a_dft (inverse DFTs)
 };
 
@@ -31,6 +32,12 @@ struct BoxOpts {
 inline BoxOpts large_layer(bool thorough, const std::vector<CpuCfg>& cf) {
   BoxOpts o; o.Ns = thorough ? std::vector<uint64_t>{256, 4096, 65536} : std::vector<uint64_t>{256, 2048, 16384};
   o.max_size = 1; o.extra_sizes = {3}; o.vmp_max_dim = 2; o.vmp_max_size = 2; o.ks = {19}; o.cf = cf; return o;
+}
+
+// a third, sparse layer of WIDE shapes at small ring dimensions: limb / row / column counts around 16, 32, 64, 128, 256 (a counter or an
+// index kept in 8 bits, a threshold tuned for "many limbs")
+inline BoxOpts wide_layer(const std::vector<CpuCfg>& cf) {
+  BoxOpts o; o.Ns = {4, 16}; o.max_size = 1; o.extra_sizes = {33, 65, 129, 257}; o.vmp_max_dim = 0; o.vmp_max_size = 0; o.ks = {19}; o.cf = cf; o.wide = true; return o;
 }
 
 inline std::vector<ApiGroup> api_groups(const BoxOpts& o) {
@@ -91,7 +98,7 @@ inline void run_group(const ApiGroup& G, const BoxOpts& o, const std::function<v
       for (uint64_t k : o.ks)
         for (uint64_t rs : SZ) for (uint64_t rsl : strides) {
           if (G.sub < 2) {
-            std::vector<uint64_t> AS = SZ; if (N <= 64 && rs <= 3) AS.push_back(40);  // one long source: many limbs are only read for their carry
+            std::vector<uint64_t> AS = SZ; if (N <= 64 && rs <= 3 && !o.wide) AS.push_back(40);  // one long source: many limbs are only read for their carry
             for (uint64_t as : AS) for (uint64_t asl : (G.sub == 0 ? strides : one)) {
               NormShape s; s.N = N; s.k = k; s.rs = rs; s.rsl = rsl; s.as = as; s.asl = asl; s.variant = G.sub; s.dataset = (int)((rs + as) % 3);
               ApiCase c = gen_normalize(mod, s, cfg);
@@ -102,6 +109,7 @@ inline void run_group(const ApiGroup& G, const BoxOpts& o, const std::function<v
             std::vector<std::vector<uint64_t>> RG;
             for (uint64_t end = 0; end <= 5; ++end) for (uint64_t begin = 0; begin <= end; ++begin) for (uint64_t step = 1; step <= 3; ++step) RG.push_back({begin, end, step});
             if (N <= 64 && rs <= 3) { RG.push_back({0, 40, 1}); RG.push_back({1, 80, 2}); }  // long ranges
+            if (o.wide) { RG.clear(); for (auto& q : std::vector<std::vector<uint64_t>>{{0, 257, 1}, {1, 258, 2}, {3, 300, 4}, {0, 129, 1}, {0, 260, 129}, {255, 257, 1}, {0, 1024, 4}}) RG.push_back(q); }
             for (auto& rg : RG) { const uint64_t begin = rg[0], end = rg[1], step = rg[2];
               NormShape s; s.N = N; s.k = k; s.rs = rs; s.rsl = rsl; s.variant = 2; s.begin = begin; s.end = end; s.step = step; s.dataset = (int)((rs + end) % 3);
               ApiCase c = gen_normalize(mod, s, cfg);
@@ -132,6 +140,13 @@ inline void run_group(const ApiGroup& G, const BoxOpts& o, const std::function<v
     }
     case F_SMALL: { ApiCase c = gen_small_product(mod, N, cfg); fn(c); ApiCase c2 = gen_small_product(mod, N, cfg, 2); fn(c2); break; }
     case F_VMP: {
+      if (o.wide) {
+        for (auto& q : std::vector<std::vector<uint64_t>>{{17, 3, 17, 3}, {3, 17, 3, 18}, {33, 2, 33, 3}, {2, 33, 3, 33}, {65, 2, 66, 2}, {2, 65, 2, 64}, {129, 2, 129, 1}, {1, 129, 1, 130},
+                                                          {257, 1, 257, 1}, {1, 257, 2, 257}, {256, 3, 255, 3}, {3, 256, 3, 255}, {128, 2, 300, 2}, {2, 128, 2, 300}}) {
+          VmpShape s; s.N = N; s.nrows = q[0]; s.ncols = q[1]; s.as = q[2]; s.rs = q[3]; s.asl = N + 3; s.variant = G.sub; ApiCase c = gen_vmp(mod, s, cfg); fn(c);
+        }
+        break;
+      }
       if (G.sub != 0) for (auto& q : std::vector<std::vector<uint64_t>>{{7, 9, 8, 9}, {9, 7, 10, 5}, {1, 12, 1, 11}, {12, 1, 13, 1}, {8, 8, 8, 7}, {6, 6, 3, 5}, {5, 8, 2, 7}, {4, 4, 1, 3}, {3, 6, 2, 3}}) {
         VmpShape s; s.N = N; s.nrows = q[0]; s.ncols = q[1]; s.as = q[2]; s.rs = q[3]; s.asl = N + 3; s.variant = G.sub; ApiCase c = gen_vmp(mod, s, cfg); fn(c);
       }
